@@ -22,11 +22,12 @@ func (d Dict) render(f *File, w io.Writer, s *Statement) error {
 	first := true
 	// must order keys to ensure repeatable source
 	type kv struct {
-		k Code
-		v Code
+		text string
+		k    Code
+		v    Code
 	}
-	lookup := map[string]kv{}
-	keys := []string{}
+	// pairs are kept in a slice: distinct keys may render to the same text
+	pairs := []kv{}
 	for k, v := range d {
 		if k == nil || v == nil || k.isNull(f) || v.isNull(f) {
 			continue
@@ -35,14 +36,13 @@ func (d Dict) render(f *File, w io.Writer, s *Statement) error {
 		if err := k.render(f, buf, nil); err != nil {
 			return err
 		}
-		keys = append(keys, buf.String())
-		lookup[buf.String()] = kv{k: k, v: v}
+		pairs = append(pairs, kv{text: buf.String(), k: k, v: v})
 	}
-	sort.Strings(keys)
-	for _, key := range keys {
-		k := lookup[key].k
-		v := lookup[key].v
-		if first && len(keys) > 1 {
+	sort.SliceStable(pairs, func(i, j int) bool { return pairs[i].text < pairs[j].text })
+	for _, p := range pairs {
+		k := p.k
+		v := p.v
+		if first && len(pairs) > 1 {
 			if _, err := w.Write([]byte("\n")); err != nil {
 				return err
 			}
@@ -57,7 +57,7 @@ func (d Dict) render(f *File, w io.Writer, s *Statement) error {
 		if err := v.render(f, w, nil); err != nil {
 			return err
 		}
-		if len(keys) > 1 {
+		if len(pairs) > 1 {
 			if _, err := w.Write([]byte(",\n")); err != nil {
 				return err
 			}
